@@ -259,9 +259,10 @@ def check_model(ctx: Ctx, base: dict, doc: dict, edits: List[dict], seed: int, b
         if budget.get("split", True):
             cuts: List[List[int]] = []
             lists = ("requests", "notifications", "structures", "enumerations", "typeAliases")
-            mini(st.tuples(*[st.one_of(st.just(-1), st.just(0), st.integers(0, len(doc[k]))) for k in lists]), 1, (seed, "C06split", summ),
+            # (Hypothesis starts with the simplest example, the same everywhere: take a later one)
+            mini(st.tuples(*[st.one_of(st.just(-1), st.just(0), st.integers(0, len(doc[k]))) for k in lists]), 4, (seed, "C06split", summ),
                  lambda xs: cuts.append(list(xs)))
-            cut = {k: (len(base.get(k, [])) if c == -1 else c) for k, c in zip(lists, cuts[0])}   # -1: the new declarations go to the second file
+            cut = {k: (len(base.get(k, [])) if c == -1 else c) for k, c in zip(lists, cuts[-1])}   # -1: the new declarations go to the second file
             cut = {k: min(c, len(doc[k])) for k, c in cut.items()}
             first = {**{k: v for k, v in doc.items() if k not in lists}, **{k: doc[k][:cut[k]] for k in lists}}
             second = {**{k: v for k, v in doc.items() if k not in lists}, **{k: doc[k][cut[k]:] for k in lists}}
